@@ -186,6 +186,8 @@ SOL_From(quick) ==
   \cup {FR("k1", "N", "vs", R(-1, 8), R(3, 4), nu, du, tu) : nu \in {"mol", "g"}, du \in {"L", "g"}, tu \in {"L", "g"}}
   \cup {FR("k2", "D", "W", R(1, 2), I(2), nu, du, "L") : nu \in {"mol", "L"}, du \in {"L", "mol"}}
   \cup {FR("v", "N", "W", R(1, 2), I(2), "mol", "L", "L")}     \* the source does not contain the solute
+  \* a high dilution (1:80): a small fraction of the stock in much solvent - the two volumes fall into different prefix ranges
+  \cup {FR("k1", "N", "W", R(1, 320), I(4), nu, "L", "L") : nu \in {"mol", "g"}}
 SOL_FromQuick == SOL_From(TRUE)
 SOL_FromFull == SOL_From(FALSE)
 
